@@ -3295,6 +3295,25 @@ Boolean PushSymbol(tStrComp const* pSymName, tStrComp const* pStackName) {
     return True;
 }
 
+static Boolean SameSymbolValue(TempResult const* p1, TempResult const* p2) {
+    if (p1->Typ != p2->Typ) {
+        return False;
+    }
+    switch (p1->Typ) {
+    case TempInt:
+        return p1->Contents.Int == p2->Contents.Int;
+    case TempFloat:
+        return p1->Contents.Float == p2->Contents.Float;
+    case TempString:
+        return !as_nonz_dynstr_cmp(&p1->Contents.str, &p2->Contents.str);
+    case TempReg:
+        return (p1->Contents.RegDescr.Reg == p2->Contents.RegDescr.Reg)
+               && (p1->Contents.RegDescr.Dissect == p2->Contents.RegDescr.Dissect);
+    default:
+        return True;
+    }
+}
+
 Boolean PopSymbol(tStrComp const* pSymName, tStrComp const* pStackName) {
     PSymbolEntry      pDest;
     PSymbolStack      LStack, PStack;
@@ -3335,7 +3354,11 @@ Boolean PopSymbol(tStrComp const* pSymName, tStrComp const* pStackName) {
         return False;
     }
 
-    Elem             = LStack->Contents;
+    Elem = LStack->Contents;
+    if (!pDest->Changeable && !SameSymbolValue(&pDest->SymWert, &Elem->Contents)) {
+        WrStrErrorPos(ErrNum_ConstantRedefinedAsVariable, pSymName);
+        return False;
+    }
     pDest->SymWert   = Elem->Contents;
     LStack->Contents = Elem->Next;
     if (!LStack->Contents) {
